@@ -330,6 +330,15 @@ def enumerate_paths(fn):
                 nd = dict(dvars)
                 nd[name] = dvars[s.value.id]
                 return run(rest, box, subst, nd, trace)
+            # name = numpy.dtype(<dtype variable or name>): the wrapped dtype, bound to a result variable
+            v = s.value
+            if isinstance(v, ast.Call) and isinstance(v.func, ast.Attribute) and v.func.attr == "dtype" and len(v.args) == 1 and not v.keywords:
+                a = v.args[0]
+                d = dvars.get(a.id) if isinstance(a, ast.Name) else dtype_name(a)
+                if d is not None:
+                    nd = dict(dvars)
+                    nd[name] = d
+                    return run(rest, box, subst, nd, trace)
             raise Undecided("assignment not recognised: %s" % norm_src(s))
         if isinstance(s, ast.Return):
             v = s.value
